@@ -38,6 +38,8 @@ def gen_hist_case(rng, max_n=6, max_ops=7):
         elif r < 0.45:
             t = sorted(rng.sample(range(n), rng.randint(0, min(2, n)))) if rng.random() < 0.6 else None
             ops.append(dict(kind="setup", target=t, exclude=(sorted(rng.sample(range(n), 1)) if rng.random() < 0.2 else None), root=None))
+            if random.Random(rng.getrandbits(30)).random() < 0.3:
+                ops[-1]["via_executor"] = True  # executor(target, exclude).setup() instead of dag.setup(target, exclude)
         elif r < 0.8:
             sel = dict(target=None, exclude=None, root=None)
             mode = rng.random()
@@ -149,6 +151,9 @@ CORPUS = [
     # a restart from a cache file runs a setup node the file does not hold: it is set up for the instance
     _chain_case(3, [[0, 2], [1, 2]], [_ex(target=[1], cache_in=True), _ex(from_cache=0), dict(kind="call", args=[], run_debug=False), _ex()], setup=[0]),
     _chain_case(3, [[0, 2], [1, 2]], [_ex(target=[1], cache_in=True), _ex(from_cache=0), dict(kind="call", args=[], run_debug=False)], setup=[0], is_async=True),
+    # setting up through an executor, both flavours
+    _chain_case(3, [[0, 2], [1, 2]], [dict(kind="setup", target=[0], exclude=None, root=None, via_executor=True), dict(kind="setup", target=None, exclude=None, root=None, via_executor=True), dict(kind="call", args=[], run_debug=False)], setup=[0, 1], is_async=True),
+    _chain_case(3, [[0, 2], [1, 2]], [dict(kind="setup", target=None, exclude=None, root=None, via_executor=True), dict(kind="call", args=[], run_debug=False)], setup=[0, 1]),
     # a partial setup followed by a full one: the full one runs what is left
     _chain_case(3, [[0, 2], [1, 2]], [dict(kind="setup", target=[0], exclude=None, root=None), dict(kind="setup", target=None, exclude=None, root=None), dict(kind="call", args=[], run_debug=False)], setup=[0, 1]),
     _chain_case(3, [[0, 2], [1, 2]], [dict(kind="setup", target=[1], exclude=None, root=None), dict(kind="setup", target=None, exclude=None, root=None)], setup=[0, 1], is_async=True),
@@ -270,6 +275,14 @@ def run_history(case, tmpdir):
         try:
             if k == "call":
                 st, ex, cnt, ctl = run_op(cur, lambda: cur(*op["args"]))
+            elif k == "setup" and op.get("via_executor"):
+                try:
+                    exo = cur.executor(target_nodes=names(op["target"]), exclude_nodes=names(op["exclude"]))
+                except ValueError as e:
+                    o.update(status="ValueError", error=str(e)[:200], executed=[])
+                    obs.append(o)
+                    return
+                st, ex, cnt, ctl = run_op(cur, lambda: exo.setup())
             elif k == "setup":
                 st, ex, cnt, ctl = run_op(cur, lambda: cur.setup(target_nodes=names(op["target"]), exclude_nodes=names(op["exclude"]), root_nodes=names(op["root"])))
             elif k == "fail":
@@ -399,12 +412,20 @@ def model_term(case, d, obs):
     # one model history per instance lineage: a deepcopy starts a copy with the same done set -> we replay the whole prefix
     ops = []
     index = []
+    lineage = None  # the instance the model follows: the original, then each deep copy in turn
     for oi, o in enumerate(obs):
         op = o["op"]
         k = op["kind"]
+        if lineage is None and "instance" in o:
+            lineage = o["instance"]
         ok = "true" if o["status"] == "ok" else "false"
-        if k in ("deepcopy", "config", "compose"):
+        if k == "deepcopy":
+            lineage = o["new_instance"]
             continue
+        if k in ("config", "compose"):
+            continue
+        if lineage is not None and o.get("instance") != lineage:
+            continue  # an executor created on the original and run after the copy was taken: not this lineage
         if k == "call":
             ops.append("OCall %d %s %s" % (len(op["args"]), "true" if op["run_debug"] else "false", ok))
         elif k == "setup":
